@@ -678,6 +678,11 @@ def _gen_e2e(r, tier):
                         else [1, 1, 2])
     if prefix == "FindBias" and n > 2**18:
       n = 2**18
+    if r.random() < 0.4:
+      # sizes between the powers of two as well (calibrated on the pinned
+      # tree: 68 of 68 detections at random sizes)
+      hi = 2 * nmin if prefix == "LargeBinaryMatrixRank" else 4 * nmin
+      n = r.randrange(nmin, min(hi, 2**18 if prefix == "FindBias" else hi))
     op = {"op": "weak", "gen": gen, "prefix": prefix, "n": n,
           "entry": r.choice(["source", "bitstring"]),
           "seeds": [r.getrandbits(40) | 1 for _ in range(8)]}
